@@ -28,6 +28,8 @@ def mkval(spec):
         return bytes([spec[1] % 256]) * spec[2]
     if kind == 'S':  # text of length n
         return chr(97 + spec[1] % 26) * spec[2]
+    if kind == 'U':  # non-ASCII text of n characters (more UTF-8 bytes than characters)
+        return ('\u00e9\u4e2d\U0001f600'[spec[1] % 3]) * spec[2]
     if kind == 'P':  # picklable object with a pickle of roughly 2n+ bytes
         return [spec[1] % 100] * spec[2] + ['end']
     raise HarnessError('bad value spec %r' % (spec,))
@@ -35,7 +37,7 @@ def mkval(spec):
 
 def is_filey(spec, threshold):
     kind = spec[0]
-    if kind == 'B' or kind == 'S':
+    if kind in ('B', 'S', 'U'):
         return spec[2] >= threshold
     if kind == 'P':
         import pickle
@@ -61,6 +63,7 @@ def value_specs(threshold):
         st.tuples(st.just('B'), st.integers(0, 255), st.just(big)),
         st.tuples(st.just('P'), st.integers(0, 99), st.just(big)),
         st.tuples(st.just('S'), st.integers(0, 25), st.just(big)),
+        st.tuples(st.just('U'), st.integers(0, 2), st.just(big)),
         st.tuples(st.just('v'), st.sampled_from([None, True, (1, 'x')])),
     )
 
